@@ -13,6 +13,9 @@ func GetNextBlock(data []byte) ([]byte, int, error) {
 	if err != nil {
 		return nil, 0, err
 	}
+	if l > uint64(len(data)) {
+		return nil, 0, errors.New("varint: not enough data for given block length")
+	}
 	length := int(l)
 	totalLength := length + n
 	if totalLength > len(data) {
